@@ -14,6 +14,7 @@ fn exec_for(prop: &str) -> Exec {
         "C12" => props::edit::exec,
         "C18" => props::matchw::exec,
         "C16" => props::windows::exec,
+        "C06" => props::batch::exec,
         "C01" | "C02" | "C03" | "C04" => props::tok::exec,
         _ => panic!("unknown property {prop}"),
     }
@@ -40,6 +41,7 @@ fn main() {
                 "C12" => props::edit::run_c12(&mut c),
                 "C18" => props::matchw::run_c18(&mut c),
                 "C16" => props::windows::run_c16(&mut c),
+                "C06" => props::batch::run_c06(&mut c),
                 "C01" => props::tok::run_c01(&mut c),
                 "C02" => props::tok::run_bpe(&mut c, false),
                 "C03" => props::tok::run_bpe(&mut c, true),
